@@ -93,7 +93,7 @@ Lemma schedule_frame b s i o w p wr :
   pollable s -> okp o -> frame b s (fst (schedule s i o w p wr)) /\ snd (schedule s i o w p wr) = [].
 Proof.
   intros Hp Ho. destruct Ho as [Hc Hk]. unfold schedule. rewrite Hc, Hk.
-  assert (Ho1 : okp (if w then with_wr o (Some p) true true else with_rd o (Some p) true true)).
+  assert (Ho1 : okp (if w then with_wr o (Some (set_wrapped p wr)) true true else with_rd o (Some (set_wrapped p wr)) true true)).
   { destruct w; apply (okp_same o); try reflexivity; split; assumption. }
   destruct (if w then o_evW o else o_evR o); cbn [fst snd].
   - split; [|reflexivity]. apply frame_set_obj; assumption.
@@ -112,7 +112,7 @@ Proof.
     destruct (if w then sys_write o (op_len p - op_sofar p) else sys_read o (op_len p - op_sofar p)) as [o1 r].
     cbn [fst] in Ho1.
     destruct r.
-    + destruct (op_all p && negb (op_sofar p + n =? op_len p)).
+    + destruct (op_all p && negb (op_sofar p + n =? op_len p) && negb (is_pkt o)).
       * eapply frame_trans; [apply frame_set_obj; eassumption|]. apply IH.
         eapply frame_pollable. apply (frame_set_obj b); eassumption.
       * apply frame_set_obj; assumption.
@@ -133,7 +133,7 @@ Qed.
 Lemma on_event_frame b s i o w err :
   pollable s -> okp o ->
   frame b s (fst (on_event s i o w err)) /\
-  (snd (on_event s i o w err) = [] \/ exists cb e n, snd (on_event s i o w err) = [IInvoke cb e n false]).
+  (snd (on_event s i o w err) = [] \/ exists cb e n wr, snd (on_event s i o w err) = [IInvoke cb e n wr]).
 Proof.
   intros Hp Ho. unfold on_event.
   cbv zeta.
@@ -142,7 +142,7 @@ Proof.
   assert (Ho1 : okp o1) by (unfold o1; destruct w; apply (okp_same o); auto).
   pose proof (frame_set_obj b s i o1 Hp Ho1) as Hf.
   destruct (if w then o_wr o else o_rd o) as [p|]; [|split; [exact Hf|left; reflexivity]].
-  destruct (negb (err =? xNil)); [split; [exact Hf|right; eexists; eexists; eexists; reflexivity]|].
+  destruct (negb (err =? xNil)); [split; [exact Hf|right; eexists; eexists; eexists; eexists; reflexivity]|].
   assert (Hlsn : frame b s (fst (let '(o2, r) := sys_read o1 0 in
                                  (set_obj s i o2, [IInvoke (op_cb p) (match r with SGot _ => xNil | SEof => xEOF | SWouldBlock => xWouldBlock | SFail e => e end)
                                                      (match r with SGot n => n | _ => 0 end) false]))) /\
@@ -151,19 +151,21 @@ Proof.
                                                      (match r with SGot n => n | _ => 0 end) false])) = [IInvoke cb e n false]).
   { pose proof (sys_read_okp o1 0 Ho1) as Hr. destruct (sys_read o1 0) as [o2 r]. cbn [fst snd] in *.
     split; [apply frame_set_obj; assumption|eexists; eexists; eexists; reflexivity]. }
-  destruct (o_kind o); try (split; [apply Hlsn|right; apply Hlsn]).
+  set (wr := is_pkt o && op_wrapped p).
+  clearbody wr.
+  destruct (o_kind o); try (split; [apply Hlsn|right; destruct Hlsn as [_ (cb & e & n & H)]; exists cb, e, n, false; exact H]).
   all: clear Hlsn.
-  all: pose proof (io_now_frame b 64 (set_obj s i o1) i w p false (frame_pollable _ _ _ Hf)) as Hf2.
-  all: pose proof (io_now_outcome 64 (set_obj s i o1) i w p false) as Hout.
-  all: generalize dependent (io_now 64 (set_obj s i o1) i w p false); intros r Hf2 Hout.
+  all: pose proof (io_now_frame b 64 (set_obj s i o1) i w p wr (frame_pollable _ _ _ Hf)) as Hf2.
+  all: pose proof (io_now_outcome 64 (set_obj s i o1) i w p wr) as Hout.
+  all: generalize dependent (io_now 64 (set_obj s i o1) i w p wr); intros r Hf2 Hout.
   all: (split; [exact (frame_trans _ _ _ _ Hf Hf2)|]).
-  all: destruct Hout as [(e & n & H)|(H & _)]; [right; exists (op_cb p), e, n; exact H|left; exact H].
+  all: destruct Hout as [(e & n & H)|(H & _)]; [right; exists (op_cb p), e, n, wr; exact H|left; exact H].
 Qed.
 
 Lemma write_event_frame b s i err :
   pollable s ->
   frame b s (fst (write_event s i err)) /\
-  (snd (write_event s i err) = [] \/ exists cb e n, snd (write_event s i err) = [IInvoke cb e n false]).
+  (snd (write_event s i err) = [] \/ exists cb e n wr, snd (write_event s i err) = [IInvoke cb e n wr]).
 Proof.
   intros Hp. unfold write_event.
   destruct (lookup i (l_objs s)) as [o|] eqn:Hl; [|split; [apply frame_refl; exact Hp|left; reflexivity]].
@@ -178,7 +180,7 @@ Qed.
 Definition itemB (it : item) : Prop :=
   match it with
   | IAct a => match a with AStart _ _ _ _ _ | AClose _ => False | _ => True end
-  | IInvoke _ _ _ w => w = false
+  | IInvoke _ _ _ _ => True      (* counted or not: the packet conn's deferred completions run through the wrapper *)
   | IEnd _ => False
   | ILog e => match e with LCb _ _ _ _ => False | _ => True end
   | _ => True
@@ -187,8 +189,8 @@ Definition itemA (it : item) : Prop :=
   match it with IAct a => is_start a | IEnd _ => True | _ => False end.
 
 Lemma itemB_opt items :
-  (items = [] \/ exists cb e n, items = [IInvoke cb e n false]) -> Forall itemB items.
-Proof. intros [->|(cb & e & n & ->)]; repeat constructor. Qed.
+  (items = [] \/ exists cb e n w, items = [IInvoke cb e n w]) -> Forall itemB items.
+Proof. intros [->|(cb & e & n & w & ->)]; repeat constructor. Qed.
 
 Lemma timer_unset_frame b s i t s1 t1 : timer_unset s i t = (s1, t1) -> pollable s -> frame b s s1.
 Proof.
@@ -215,7 +217,7 @@ Proof.
   destruct (kind =? 2).
   { cbn [fst snd]. split.
     - apply frame_same; try reflexivity. exact Hp.
-    - induction (l_posts s); cbn; constructor; [reflexivity|assumption]. }
+    - induction (l_posts s); cbn; constructor; [exact I|assumption]. }
   destruct (kind =? 1).
   { destruct (lookup i (l_tmrs s)) as [t|]; [|split; [apply frame_refl; exact Hp|constructor]].
     destruct ((has mask mIN || has mask mHUP || has mask mERR) && t_evR t); [|split; [apply frame_refl; exact Hp|constructor]].
@@ -286,7 +288,7 @@ Lemma do_action_frame_start b s w all i len cb :
 Proof.
   intros Hp. cbn [do_action].
   destruct (lookup i (l_objs s)) as [o|] eqn:Hl; [|split; [apply frame_refl; exact Hp|left; reflexivity]].
-  set (p := mkop cb all len 0).
+  set (p := mkop cb all len 0 false).
   set (o0 := if w then with_wr o (Some p) (o_evW o) (o_reg o) else with_rd o (Some p) (o_evR o) (o_reg o)).
   assert (Ho0 : okp o0) by (unfold o0; destruct w; apply (okp_same o); try reflexivity; exact (okp_lookup _ _ _ Hp Hl)).
   set (s0 := add_log s (LStart cb i w all len)).
@@ -391,26 +393,41 @@ Proof.
       * (* IAct, not a start *)
         destruct (do_action_frame_B bound s a I1 Hb) as [Hf Hit].
         destruct (do_action s a) as [s1 items]. apply Hstep; assumption.
-      * (* an uncounted invocation: depth 0 -> 1 *)
-        subst wrapped.
-        set (acts := if 0 <? l_budget _ then map IAct (prog_of _ cb) else []).
-        match goal with |- settled (exec f ?s3 _) => set (s' := s3) end.
-        assert (HA : Forall itemA (acts ++ [IEnd false])).
-        { apply Forall_app. split; [|repeat constructor].
-          unfold acts. destruct (0 <? _); [|constructor]. apply itemA_acts. apply progs_chain. exact I2. }
-        assert (Hc : forall w, cnt w acts = 0) by (intros w; unfold acts; destruct (0 <? _); [apply cnt_acts|reflexivity]).
-        change (acts ++ IEnd false :: B) with (acts ++ [IEnd false] ++ B). rewrite app_assoc.
-        apply (IH s' [] (acts ++ [IEnd false]) B).
-        unfold sinv. subst s'. cbn [l_depth l_disp l_log l_progs set_disp set_depth add_log l_objs].
-        rewrite !cnt_app, !Hc. cbn [cnt Bool.eqb]. cbn [cnt] in I6, I7.
-        split; [exact I1|]. split; [exact I2|]. split; [constructor; [cbn; lia|exact I3]|].
-        split; [exact HA|]. split; [exact HB|]. split; [lia|]. split; [lia|]. split; [lia|left; reflexivity].
+      * (* an invocation by the poller (counted when a packet conn completes a deferred operation through the wrapper,
+           uncounted otherwise): depth 0 -> 1 *)
+        clear Hb. destruct wrapped.
+        -- idtac.
+          set (acts := if 0 <? l_budget _ then map IAct (prog_of _ cb) else []).
+          match goal with |- settled (exec f ?s3 _) => set (s' := s3) end.
+          assert (HA : Forall itemA (acts ++ [IEnd true])).
+          { apply Forall_app. split; [|repeat constructor].
+            unfold acts. destruct (0 <? _); [|constructor]. apply itemA_acts. apply progs_chain. exact I2. }
+          assert (Hc : forall w, cnt w acts = 0) by (intros w; unfold acts; destruct (0 <? _); [apply cnt_acts|reflexivity]).
+          change (acts ++ IEnd true :: B) with (acts ++ [IEnd true] ++ B). rewrite app_assoc.
+          apply (IH s' [] (acts ++ [IEnd true]) B).
+          unfold sinv. subst s'. cbn [l_depth l_disp l_log l_progs set_disp set_depth add_log l_objs].
+          rewrite !cnt_app, !Hc. cbn [cnt Bool.eqb]. cbn [cnt] in I6, I7.
+          split; [exact I1|]. split; [exact I2|]. split; [constructor; [cbn; lia|exact I3]|].
+          split; [exact HA|]. split; [exact HB|]. split; [lia|]. split; [lia|]. split; [lia|left; reflexivity].
+        -- idtac.
+          set (acts := if 0 <? l_budget _ then map IAct (prog_of _ cb) else []).
+          match goal with |- settled (exec f ?s3 _) => set (s' := s3) end.
+          assert (HA : Forall itemA (acts ++ [IEnd false])).
+          { apply Forall_app. split; [|repeat constructor].
+            unfold acts. destruct (0 <? _); [|constructor]. apply itemA_acts. apply progs_chain. exact I2. }
+          assert (Hc : forall w, cnt w acts = 0) by (intros w; unfold acts; destruct (0 <? _); [apply cnt_acts|reflexivity]).
+          change (acts ++ IEnd false :: B) with (acts ++ [IEnd false] ++ B). rewrite app_assoc.
+          apply (IH s' [] (acts ++ [IEnd false]) B).
+          unfold sinv. subst s'. cbn [l_depth l_disp l_log l_progs set_disp set_depth add_log l_objs].
+          rewrite !cnt_app, !Hc. cbn [cnt Bool.eqb]. cbn [cnt] in I6, I7.
+          split; [exact I1|]. split; [exact I2|]. split; [constructor; [cbn; lia|exact I3]|].
+          split; [exact HA|]. split; [exact HB|]. split; [lia|]. split; [lia|]. split; [lia|left; reflexivity].
       * (* ITimerFired *)
         destruct (lookup t (l_tmrs s)) as [tm|].
         -- change (IInvoke (t_cb tm) xNil 0 false :: (if 0 <? t_rep tm then [ITimerAfter t] else []) ++ B)
              with ((IInvoke (t_cb tm) xNil 0 false :: (if 0 <? t_rep tm then [ITimerAfter t] else [])) ++ B).
            apply Hstep; [apply frame_set_tmr; exact I1|].
-           constructor; [reflexivity|]. destruct (0 <? t_rep tm); repeat constructor.
+           constructor; [exact I|]. destruct (0 <? t_rep tm); repeat constructor.
         -- apply (Hstep s []); [apply frame_refl; exact I1|constructor].
       * (* ITimerAfter *)
         destruct (lookup t (l_tmrs s)) as [tm|].
